@@ -5,44 +5,53 @@ From Dae.gen Require Import C01_Consts C02_Consts.
 Import ListNotations.
 Open Scope N_scope.
 
-(* REFINEMENT (the property).  For every array of match-sets the builder can emit (any length up to the limit, any of the
-   eleven types, any NOT/OR/AND/must_rules shape, marks below 2^32, outbound ids one byte) with its LPM sets, every ring
-   offset `alloc` and every earlier content `prev` of the kernel maps (any number of earlier reloads), and every packet
-   (TCP/UDP, IPv4/IPv6, with or without MAC and process name, any ports including 53, LAN or WAN): if
-   buildRoutingKernspace installs the generation, then route() over the installed BYTES — decoded as its callers decode
-   the result word — answers dns_adjust of what RoutingMatcher.Match answers for the same packet, and nothing when Match
-   answers nothing.  Hypotheses: the domain_routing_map entry of the destination is the bitmap of the packet's domain
-   (C10/C11 interface, `dom_entry`), and the process-name hypothesis `pname_guard_ok`.
-   C02_kscan_scan_full is the statement without the process-name hypothesis; it is FALSE (C02_kscan_scan_refuted). *)
-Definition C02_kscan_scan_full : Prop := kscan_scan_statement false.
-
-Theorem C02_kscan_scan_refuted : ~ C02_kscan_scan_full.
-Proof. exact kscan_scan_refuted_proof. Qed.
-Print Assumptions C02_kscan_scan_refuted.
-
-Theorem C02_kscan_scan_partial :
+(* REFINEMENT (the property), full strength.  For every array of match-sets the builder can emit (any length up to the
+   limit, any of the eleven types, any NOT/OR/AND/must_rules shape, marks below 2^32, outbound ids one byte) with its LPM
+   sets, every ring offset `alloc` and every earlier content `prev` of the kernel maps (any number of earlier reloads), and
+   every probe of the quantifier (TCP/UDP, IPv4/IPv6, any ports including 53, LAN with or without MAC and no process
+   name, WAN with a process name or an unknown process): if buildRoutingKernspace installs the generation, then route()
+   over the installed BYTES - decoded as its callers decode the result word - answers dns_adjust of what
+   RoutingMatcher.Match answers for the same packet, and nothing when Match answers nothing.
+   Hypothesis (interface to C10/C11): the domain_routing_map entry of the destination is the bitmap of the packet's
+   domain (`dom_entry`).  `probe_ok` is the quantifier's own side condition: value ranges, and a LAN probe carries no
+   process name (the LAN hook never passes one). *)
+Theorem C02_kscan_scan :
   forall (prev : kmaps) (ms : list mset) (tries : list (list prefix128)) (alloc : N) (dm : string -> list N)
          (pk : packet) (wan : bool) (km : kmaps),
     forallb (wf_mset (N.of_nat (List.length tries))) ms = true ->
     forallb (forallb wf_prefix) tries = true ->
-    wf_packet pk = true ->
+    probe_ok pk wan = true ->
     bitmap_ok (dm (p_domain pk)) = true ->
-    pname_guard_ok ms pk wan = true ->
     install prev ms tries alloc = Ok km ->
     let bm := if String.eqb (p_domain pk) "" then None else Some (dm (p_domain pk)) in
     kernel_decides prev ms tries alloc (dom_entry bm) pk wan
     = Ok (expected (p_dport pk) (user_answer (match_sets {| mt_sets := ms; mt_tries := tries |} dm (args_of_packet pk)))).
-Proof. exact kscan_scan_partial_proof. Qed.
-Print Assumptions C02_kscan_scan_partial.
+Proof. exact kscan_scan_proof. Qed.
+Print Assumptions C02_kscan_scan.
 
-(* the witness of the refutation, spelled out: `pname('') -> block; fallback: direct` and a WAN packet whose process is
-   unknown: the kernel says block, the control plane says direct *)
-Theorem C02_empty_pname_witness :
-  kernel_decides empty_kmaps f11_msets [] 0 None f11_packet true = Ok (Some (1, 0, false)) /\
-  match_sets {| mt_sets := f11_msets; mt_tries := [] |} (fun _ => []) (args_of_packet f11_packet) = Ok (0, 0, false) /\
-  pname_guard_ok f11_msets f11_packet true = false.
-Proof. exact f11_answers. Qed.
-Print Assumptions C02_empty_pname_witness.
+(* The side condition "a LAN probe carries no process name" cannot be dropped: the kernel compares names only on the WAN
+   path (is_wan), the userspace matcher whenever a name is present.  Witness: pname(curl) -> block, fallback direct, and
+   a probe with is_wan = 0 that carried the name "curl". *)
+Definition C02_kscan_scan_unrestricted : Prop := kscan_scan_statement false.
+
+Theorem C02_kscan_scan_unrestricted_refuted : ~ C02_kscan_scan_unrestricted.
+Proof. exact kscan_scan_unrestricted_refuted_proof. Qed.
+Print Assumptions C02_kscan_scan_unrestricted_refuted.
+
+(* the combinations of is_wan and name, spelled out: pname('') never matches an unknown process (LAN or WAN); pname(curl)
+   matches a WAN probe named curl on both sides and no unnamed probe; only the out-of-quantifier LAN probe named curl
+   separates the two sides *)
+Theorem C02_pname_combinations :
+  let user ms pk := match_sets {| mt_sets := ms; mt_tries := [] |} (fun _ => []) (args_of_packet pk) in
+  let z := repeat 0 16 in
+  kernel_decides empty_kmaps (pn_msets z) [] 0 None (pn_packet z) true = Ok (Some (0, 0, false)) /\ user (pn_msets z) (pn_packet z) = Ok (0, 0, false) /\
+  kernel_decides empty_kmaps (pn_msets z) [] 0 None (pn_packet z) false = Ok (Some (0, 0, false)) /\
+  kernel_decides empty_kmaps (pn_msets curl16) [] 0 None (pn_packet curl16) true = Ok (Some (1, 0, false)) /\ user (pn_msets curl16) (pn_packet curl16) = Ok (1, 0, false) /\
+  kernel_decides empty_kmaps (pn_msets curl16) [] 0 None (pn_packet z) true = Ok (Some (0, 0, false)) /\ user (pn_msets curl16) (pn_packet z) = Ok (0, 0, false) /\
+  kernel_decides empty_kmaps (pn_msets curl16) [] 0 None (pn_packet curl16) false = Ok (Some (0, 0, false)) /\
+  probe_ok (pn_packet curl16) false = false /\ probe_ok (pn_packet z) true = true /\ probe_ok (pn_packet z) false = true.
+Proof. exact pname_combinations. Qed.
+Print Assumptions C02_pname_combinations.
 
 (* TOTALITY of the installation for what the builder emits within the limits *)
 Theorem C02_install_total :
